@@ -468,10 +468,12 @@ func (s *sim) quiesce() {
 		}
 		if n > 0 {
 			s.probes["steps_with_shutdown_waiting_for_lock"]++
+			s.polled = true
 			return
 		}
 		s.heldShut = false
 	}
+	s.polled = false
 	synctest.Wait()
 }
 
